@@ -121,17 +121,20 @@ PROPS["C11"] = dict(
             dict(harness="VerifHarness_C11_quick", reach=_c11_reach),
             dict(harness="VerifHarness_C11_count3", reach=_c11_reach),
             dict(harness="VerifHarness_C11_sym3", reach=_c11_reach),
+            dict(pkg="ariga.io/atlas/sql/sqlite", hdir="sqlite", harness="VerifHarness_C14_gate", reach=["dirty", "clean"]),
         ],
         "thorough": [
             dict(harness="VerifHarness_C11_thorough", reach=_c11_reach),
             dict(harness="VerifHarness_C11_count4", reach=_c11_reach),
             dict(harness="VerifHarness_C11_sym4", reach=_c11_reach),
+            dict(pkg="ariga.io/atlas/sql/sqlite", hdir="sqlite", harness="VerifHarness_C14_gate", reach=["dirty", "clean"]),
         ],
     },
     bounds={
         "quick": "directories of 1..4 versions, any subset marked checkpoint, any subset with a revision, last revision complete or partial, "
                  "3 execution orders, first run x {clean, dirty} x {plain, allow-dirty, baseline at any version}; apply-with-count 0..n+1 on <=3 versions; "
-                 "symbolic one-byte version strings (ordering decided by the solver) on <=3 versions",
+                 "symbolic one-byte version strings (ordering decided by the solver) on <=3 versions; the SQLite driver's clean-database gate "
+                 "(CheckClean) on 0..2 tables with symbolic names",
         "thorough": "same with 1..5 versions (count: 4, symbolic versions: 4); unsat answers cross-checked",
     },
     assumptions=[
@@ -567,12 +570,14 @@ PROPS["C14"] = dict(
         "quick": [
             dict(harness="VerifHarness_C14_replay", reach=["dirty", "clean", "restored", "restore-failed", "replayed"]),
             dict(harness="VerifHarness_C14_normalize", reach=["dirty", "clean", "restored", "restore-failed", "normalized"]),
+            dict(harness="VerifHarness_C14_gate", reach=["dirty", "clean"]),
             dict(module="cmd/atlas", pkg="ariga.io/atlas/cmd/atlas/internal/migratelint", hdir="migratelint", harness="VerifHarness_C14_lint",
                  reach=["loaded", "failed", "checkpoint", "restored", "restore-failed"]),
         ],
         "thorough": [
             dict(harness="VerifHarness_C14_replay3", reach=["dirty", "clean", "restored", "restore-failed", "replayed"]),
             dict(harness="VerifHarness_C14_normalize", reach=["dirty", "clean", "restored", "restore-failed", "normalized"]),
+            dict(harness="VerifHarness_C14_gate", reach=["dirty", "clean"]),
             dict(module="cmd/atlas", pkg="ariga.io/atlas/cmd/atlas/internal/migratelint", hdir="migratelint", harness="VerifHarness_C14_lint3",
                  reach=["loaded", "failed", "checkpoint", "restored", "restore-failed"]),
         ],
@@ -580,7 +585,8 @@ PROPS["C14"] = dict(
     bounds={
         "quick": "dev database holding 0..2 user tables; Executor.Replay over directories of 1..2 files x 2 statements, and DevDriver.NormalizeRealm / "
                  "NormalizeSchema of 1..2 tables; the index of the failing dev-database operation (inspection or statement, including the restore's own "
-                 "statements; or none) is a symbolic integer; migrate lint: DevLoader.LoadChanges over 0..1 base files and 1..2 new files x 2 statements, any one of "
+                 "statements; or none) is a symbolic integer; the last replayed file optionally unscannable; the SQLite cleanliness gate on 0..2 tables with "
+                 "symbolic one-letter names against a symbolic revisions-table name; migrate lint: DevLoader.LoadChanges over 0..1 base files and 1..2 new files x 2 statements, any one of "
                  "them (or none) a checkpoint, the last file optionally holding an invalid statement, same symbolic failing operation",
         "thorough": "same with directories of up to 3 files",
     },
